@@ -148,6 +148,8 @@ RangeToken* RangeTokenMap::getRange(const XMLCh* const keyword,
                     if (rangeTok)
                     {
                         rangeTok = RangeToken::complementRanges(rangeTok, fTokenFactory, fTokenRegistry->getMemoryManager());
+                        // build the internal map before other threads can see the token
+                        rangeTok->createMap();
                         elemMap->setRangeToken(rangeTok , complement);
                     }
                 }
